@@ -59,6 +59,19 @@ CLAIMS = {
              "agree; under /i the subject is solver-indexed over a pinned alphabet with the special-casing characters.",
         technique="differential symbolic execution vs the transcribed ECMAScript matcher (CrossHair/z3)",
         design_ref="DESIGN.md section 4 (C09)"),
+    "C10": dict(
+        text="Construction: RegExp(p) is executed with the pattern string itself symbolic (every string up to the "
+             "bound over all code points) and, through Context.eval with the constructor, the call form and the "
+             "literal, over the regex metacharacter vocabulary with solver-chosen characters and flag strings: the "
+             "only outcomes are success or a SyntaxError a script can catch (a JSError in Python). Matching under "
+             "budgets: one RegexVM per catastrophic family (nested quantifiers, overlapping alternations, "
+             "backreference loops, lookarounds in loops, empty iterations) with step_limit / stack_limit / "
+             "poll_interval and the poll callback's answers as solver variables: the attempt ends, steps <= "
+             "step_limit+1, the backtrack stack <= stack_limit+1, polls at least every poll_interval steps "
+             "(sub-matchers included), RegexTimeoutError iff the callback asked for it. Default budgets: 12 "
+             "catastrophic (pattern, length) pairs x 8 regex-consuming APIs through eval end with a value or JSError.",
+        technique="symbolic execution of the regex parser/compiler/VM with symbolic pattern text and symbolic budgets (CrossHair/z3)",
+        design_ref="DESIGN.md section 4 (C10)"),
     "C14": dict(
         text="Encoding kernels over all sizes: for every opcode with an operand, Compiler._emit / _emit_jump / "
              "_patch_jump are executed with the operand, the jump target and the code size as solver variables in "
